@@ -129,6 +129,8 @@ def _classify(prop, o, r, st, out, features, timeout, extra_env=None):
         "witnesses_satisfied": len(sat),
         "checks_total": len(checks),
         "solver_queries": 1,
+        "sym_states": int(st.get("vccs_generated") or 0),
+        "sym_transitions": int(st.get("size_program_expression") or 0),
     }
     res["sample"] = {
         "obligation": o["name"], "engine": "kani/cbmc", "bound": o.get("bound", ""),
